@@ -59,6 +59,8 @@ let handle cmd =
     String.concat " " (List.map (fun (a, b) -> string_of_int (int_of_nat a) ^ "," ^ string_of_int (int_of_nat b)) p)
   | "marks" -> let u = rd_usettings () in let s1 = rd_series () in let s2 = rd_series () in
     String.concat " " (List.map (fun (a, b) -> string_of_int (int_of_nat a) ^ "," ^ string_of_int (int_of_nat b)) (marks_model u s1 s2))
+  | "ccompact" -> let u = rd_usettings () in let s1 = rd_series () in let s2 = rd_series () in
+    str_matrix (c_compact_model u s1 s2)
   | "wps" -> let u = rd_usettings () in let s1 = rd_series () in let s2 = rd_series () in
     str_matrix (wps_matrix u s1 s2)
   | "bp" -> let u = rd_usettings () in let s1 = rd_series () in let s2 = rd_series () in
